@@ -49,6 +49,7 @@ class AioRunner:
         self.arg_failures = []
         self.cells = []
         self.del_events = []   # (instant, acting job, deleted job) for deletions done by coroutines
+        self.cop_sel = []      # (instant, acting job, expected selection, jobs actually removed, returned count) of delete_jobs from coroutines
         self.probes = []
         self.prints = []
 
@@ -80,8 +81,13 @@ class AioRunner:
                             runner.cop_errors.append(err_kind(e))
                     elif a[0] == "at":
                         before = set(runner.key_of[id(j)] for j in runner.sched.jobs)
-                        runner.sched.delete_jobs(py_tags(a[2], "set"), bool(a[1]))
+                        # what must be selected, from each registered job's own tag set (C12), the caller included
+                        q_ = py_tags(a[2], "set") or set()
+                        want_ = sorted(runner.key_of[id(j)] for j in runner.sched.jobs
+                                       if (not q_) or (bool(q_ & j.tags) if a[1] else q_ <= j.tags))
+                        n_ = runner.sched.delete_jobs(py_tags(a[2], "set"), bool(a[1]))
                         after = set(runner.key_of[id(j)] for j in runner.sched.jobs)
+                        runner.cop_sel.append((CLOCK.instant, key, want_, sorted(before - after), n_))
                         for kk in sorted(before - after):
                             runner.trace.append(("D", kk))
                             runner.del_events.append((CLOCK.instant, key, kk))
@@ -293,6 +299,8 @@ class AioRunner:
             obs["arg_failures"] = list(self.arg_failures)
             obs["probes"] = list(self.probes)
             self.probes = []
+            obs["cop_sel"] = list(self.cop_sel)
+            self.cop_sel = []
             obs["prints"] = list(self.prints)
             self.prints = []
             # a coroutine deleted ANOTHER job at the very instant that job's coroutine started: which of the
